@@ -4,4 +4,4 @@ Extraction Language OCaml.
 Extraction "model.ml" mkVar mkBias mkCfg set_flags prep_vars active_vars active_biases build_items item_evaluates
   item_evaluates_unfixed serial_evaluates active_pairs step_serial step_smp next_cfg step_error n_cvc_items
   n_bias_items or_codes deal depth_serial depth_smp depth_smp_unfixed msum reduce_chunks inner_loop_value model_comp_fps model_collect_fps model_bias_fps mkProbe probe_matches_b probe_independent_b
-  bias_loop_items log_of rebuild_items rebuild_items_cached items_history serial_cvc_items_err smp_cvc_items_err run loc_eqb mrun wr_order thread_mops smp_cvc_work.
+  bias_loop_items log_of rebuild_items rebuild_items_cached items_history serial_cvc_items_err smp_cvc_items_err run loc_eqb mrun wr_order thread_mops smp_cvc_work omp_static omp_thread_of step_mode parallel_bias_loop replica_share_freq.
